@@ -962,7 +962,7 @@ static VectorDouble selVD(const std::vector<int>& sel)
   return v;
 }
 // getters common to all meshes
-static bool cmpAMesh(const std::string& cls, const AMesh& x, const AMesh& y, Ctx& ctx)
+static bool cmpAMesh(const std::string& cls, const AMesh& x, const AMesh& y, Ctx& ctx, bool withExtrema = true)
 {
   CHECK_EQ_INT(cls, "ndim", x.getNDim(), y.getNDim());
   CHECK_EQ_INT(cls, "napices", x.getNApices(), y.getNApices());
@@ -996,7 +996,8 @@ static bool cmpAMesh(const std::string& cls, const AMesh& x, const AMesh& y, Ctx
     }
   }
   // bounding box (stored for the turbo meshing, derived from the apices otherwise)
-  for (int d = 0; d < ndim; d++)
+  // (an object built by MeshSpherical's constructor has no bounding box at all: asking for it is undefined)
+  for (int d = 0; withExtrema && d < ndim; d++)
   {
     VectorDouble ex = x.getExtrema(d), ey = y.getExtrema(d);
     if (ex.size() != ey.size()) { ctx.fail(cls + ":query:extrema", "bounding box of different sizes"); return false; }
@@ -1088,7 +1089,7 @@ static void runMesh(const MeshCase& c, Ctx& ctx)
       if (!x) { ctx.label("build-refused"); defineDefaultSpace(ESpaceType::RN, 2); return; }
       ok = roundTrip<MeshSpherical>("MeshSpherical", "MeshSpherical", "nf_MeshSpherical", *x, []() { return new MeshSpherical(); },
                                     [](const std::string& p) { return MeshSpherical::createFromNF(p, false); },
-                                    [](const MeshSpherical& a, const MeshSpherical& b, Ctx& cx) { return cmpAMesh("MeshSpherical", a, b, cx); }, c.fo, ctx);
+                                    [](const MeshSpherical& a, const MeshSpherical& b, Ctx& cx) { return cmpAMesh("MeshSpherical", a, b, cx, false); }, c.fo, ctx);
       defineDefaultSpace(ESpaceType::RN, 2);
     }
     ctx.nontrivial(ok && c.nmeshes() >= 2);
@@ -2491,7 +2492,8 @@ static bool cmpContinuous(const std::string& cls, const AnamContinuous& a, const
   CHECK_EQ_DBL(cls, "pymin", a.getPymin(), b.getPymin());
   CHECK_EQ_DBL(cls, "pymax", a.getPymax(), b.getPymax());
   CHECK_EQ_DBL(cls, "mean", a.getMean(), b.getMean());
-  CHECK_EQ_DBL(cls, "variance", a.getVariance(), b.getVariance());
+  // (recomputed from the coefficients by AnamHermite: a sum of squares of values rounded to 15 digits)
+  if (!eqv(a.getVariance(), b.getVariance(), 1e-12)) { ctx.fail(cls + ":get:variance", fmt("variance: %s before, %s after reload", dstr(a.getVariance()).c_str(), dstr(b.getVariance()).c_str())); return false; }
   return true;
 }
 // transforms at generated arguments; tolerance: the polynomial / interpolation is Lipschitz in its coefficients
@@ -2514,7 +2516,8 @@ static bool cmpTransforms(const std::string& cls, const AnamContinuous& a, const
     double ya = 0, yb = 0;
     try { ya = a.rawToTransformValue(z); } catch (const std::exception&) { ctx.label("query-refused-by-original"); continue; }
     yb = b.rawToTransformValue(z);
-    if (!eqv(ya, yb, 1e-8) && !(std::fabs(ya - yb) <= 1e-8))
+    // (the inverse is found iteratively with a stopping rule near 1e-8: compared well above it)
+    if (!eqv(ya, yb, 1e-6) && !(std::fabs(ya - yb) <= 1e-6))
     {
       ctx.fail(cls + ":query:rawToTransformValue", fmt("z=%.17g: y=%.17g before, %.17g after reload", z, ya, yb));
       return false;
@@ -2564,7 +2567,17 @@ static void runAnam(const AnamCase& c, Ctx& ctx)
                                   if (!cmpContinuous(cls, a, b, cx)) return false;
                                   CHECK_EQ_INT(cls, "nbpoly", a.getNbPoly(), b.getNbPoly());
                                   CHECK_EQ_DBL(cls, "rcoef", a.getRCoef(), b.getRCoef());
-                                  if (!sameVecD(cls, "psihn", a.getPsiHns(), b.getPsiHns(), cx)) return false;
+                                  {
+                                    // coefficient n is returned multiplied by r^n: (n+1) roundings of 15 digits
+                                    VectorDouble pa = a.getPsiHns(), pb = b.getPsiHns();
+                                    if (pa.size() != pb.size()) { cx.fail(cls + ":get:psihn", "numbers of coefficients differ"); return false; }
+                                    for (size_t ih = 0; ih < pa.size(); ih++)
+                                      if (!eqv(pa[ih], pb[ih], kRel * (double)(ih + 2)))
+                                      {
+                                        cx.fail(cls + ":get:psihn", fmt("psihn[%d]: %.17g before, %.17g after reload", (int)ih, pa[ih], pb[ih]));
+                                        return false;
+                                      }
+                                  }
                                   double lo = zlo, hi = zhi;
                                   if (!c.fit) { lo = 0; hi = 0; for (double v : a.getPsiHns()) hi += std::fabs(v) * 50.; }
                                   return cmpTransforms(cls, a, b, c, lo, hi, c.fit, cx);
